@@ -125,6 +125,7 @@ type State struct {
 	Allocs      int
 	Frees       int
 	UninitReads int
+	Replaced    bool // state superseded by forks made inside an extern (not a path)
 	nextObj     *int
 }
 
